@@ -18,19 +18,102 @@ META = dict(
                 'order) under every chunking and within the limits; (4) limits: declared length over multipart_form_data_limit => 413, '
                 'oversized form field => 413 and stays refused, missing boundary => 400, shorter / longer than declared and trailing bytes '
                 '=> 400, entries are published iff the closing delimiter ends exactly at the declared length; (5) multipart filter events '
-                'are chunking independent and on success are exactly the delivered entries, each once; (6) urlencoded round trip. Leaf '
-                'functions separator / ascii_to_lower / xdigit are regenerated from the current source and proved equal to the model leafs.'),
+                'are chunking independent and on success are exactly the delivered entries, each once; (6) urlencoded round trip, for the '
+                'fixed %XX encoder and for ANY per-byte encoding choice (literal / + / %XX either case), GET query all-or-nothing, read_full '
+                'accumulation independent of the chunking; (7) every RFC 2046 boundary is CR-free (domain of the one remaining refuted statement); the '
+                'part header terminator is recognised exactly at its first occurrence in EVERY text, so a part header with any bytes (bare CR '
+                'included) is refused with 400 or framed exactly; (8) temporary files as a resource '
+                'state machine (file_buffer put side, file::close/~file/save_to/make_permanent, owners): spill iff size > limit, every file '
+                'created is closed and removed exactly once on ready / 400 / 413 / aborted and for every behaviour of the application, never '
+                'while the application still holds it; (9) content_type::parse on every well-formed header: boundary = exactly the value of '
+                'the first boundary parameter; (10) limits exact at n-1/n/n+1. Leaf functions separator / ascii_to_lower / xdigit and the '
+                'limit decisions (spill switch, buffer growth, on_content_start, size_ok, default limits) are regenerated from the current '
+                'source and proved equal to the model leafs.'),
     level_note=('Trusted: Coq kernel + vm_compute; cxx2v translator and clang AST (3 leaf functions only); ExtrOcamlBasic extraction; '
                 'the hand model of the parser, header parser and request driver is tied to the code by differential testing only '
                 '(bare multipart_parser with explicit cut lists incl. every 2-cut of small bodies; whole requests through a running '
-                'cppcms::service over SCGI with limits/filters/buffer sizes), not by proof. no_room_left (upload write failure), '
-                'temp-file creation/removal and the memory-to-file switch of file_buffer are checked by the oracle on the '
-                'implementation (directory listings), not modelled in Coq. HTTP and FastCGI front ends are not used for C12.'),
+                'cppcms::service over SCGI with limits/filters/buffer sizes), not by proof. The resource model of the upload files '
+                '(coq/C12/ResDefs.v) assumes that fopen/fwrite/fclose/rename/remove succeed; it is tied by counting directory entries and '
+                'open descriptors (via /proc/self/fd) in both harnesses at: end of parsing, application start, application end (after '
+                'close/save_to/make_permanent/kept references), request destroyed, references dropped. no_room_left (upload write '
+                'failure) and the read side of file_buffer are not modelled. HTTP and FastCGI front ends are not used for C12.'),
 )
+
+LIM_TU = os.path.join(vlib.WORK, 'C12', 'C12_limit_leafs.cpp')
+LIM_TU_PROBLEMS = []
+
+
+def limits_tu():
+    """The limit decisions of the anchored code are inside member functions with I/O and stream calls, outside the subset of
+    tools/cxx2v.py.  Their integer leafs are lifted TEXTUALLY from the current source into a tiny TU (rewritten on every run) and
+    translated; coq/C12/LinkLimits.v proves them equal to the model's decisions: (1) file_buffer::overflow - the memory-to-file
+    switch `size >= limit_`, the growth of the in-memory buffer, buffer_size; (2) request::on_content_start - 0 / negative length,
+    multipart_form_data_limit vs. content_length_limit; (3) request::size_ok; (4) the defaults of the three limits in
+    cached_settings.h and the KiB multiplier of content_limits.  A function that no longer has the statement structure the model
+    was written for is left out, so the translator reports a broken tie."""
+    os.makedirs(os.path.dirname(LIM_TU), exist_ok=True)
+    del LIM_TU_PROBLEMS[:]
+
+    def rd(*parts):
+        try:
+            t = open(os.path.join(vlib.REPO, *parts)).read()
+        except OSError as e:
+            LIM_TU_PROBLEMS.append(str(e))
+            return ''
+        t = re.sub(r'//[^\n]*', '', t)
+        return ' '.join(re.sub(r'/\*.*?\*/', '', t, flags=re.S).split())
+    fb, rq, cs, cf = rd('private', 'http_file_buffer.h'), rd('src', 'http_request.cpp'), rd('private', 'cached_settings.h'), rd('src', 'http_content_filter.cpp')
+    out = ['// GENERATED by checks/C12.py from the current source - do not edit']
+    E = r'([^;{}]*?)'
+    m = re.search(r'int overflow\(int c\) ?\{ ?size_t size ?= ?pptr\(\) ?- ?pbase\(\); ?if ?\(in_memory_\) ?\{ ?if ?\(' + E + r'\) ?\{ ?if ?\(to_file\(\) ?< ?0\) ?return -1; ?\} ?'
+                  r'else ?\{ ?size_t read_offset ?= ?gptr\(\) ?- ?eback\(\); ?size_t new_size ?= ?' + E + r'; ?((?:if ?\(new_size[^;{}]*\) ?new_size ?= ?[^;{}]*; ?)*)data_\.resize\(new_size\);', fb)
+    if m:
+        grow = m.group(3).replace('size_t', 'unsigned long')
+        out.append('static int c12_spill(unsigned long size, unsigned long limit_) { if(%s) return 1; return 0; }' % m.group(1))
+        out.append('static unsigned long c12_grow(unsigned long data_size, unsigned long limit_) { unsigned long new_size = %s; %s return new_size; }'
+                   % (m.group(2).replace('data_.size()', 'data_size'), grow))
+    else:
+        LIM_TU_PROBLEMS.append('private/http_file_buffer.h: file_buffer::overflow no longer has the statement structure the model (coq/C12/ResDefs.v fo_putc) was written for')
+    m = re.search(r'static const size_t buffer_size ?= ?(\d+);', fb)
+    if m:
+        out.append('static const unsigned long c12_buffer_size = %s;' % m.group(1))
+    else:
+        LIM_TU_PROBLEMS.append('private/http_file_buffer.h: buffer_size not found')
+    m = re.search(r'int request::on_content_start\(\) ?\{ ?(.*?) ?if ?\(!d->filter_is_raw_content_filter', rq)
+    if m:
+        body = m.group(1)
+        for a, b in (('static_cast<long long>(d->limits.content_length_limit())', 'cl_limit'), ('d->limits.content_length_limit()', 'cl_limit'),
+                     ('d->limits.multipart_form_data_limit()', 'mp_limit'), ('lazy_content_type().is_multipart_form_data()', 'is_mp'), ('d->content_length', 'content_length')):
+            body = body.replace(a, b)
+        if re.search(r'[^\w\s(){}<>=!;&|+\-*]', body) or 'd->' in body:
+            LIM_TU_PROBLEMS.append('src/http_request.cpp: on_content_start: statement outside the translatable subset: ' + body[:200])
+        else:
+            out.append('static int c12_start(long long content_length, int is_mp, long long mp_limit, long long cl_limit) { %s return 0; }' % body)
+    else:
+        LIM_TU_PROBLEMS.append('src/http_request.cpp: request::on_content_start not found in the expected shape')
+    m = re.search(r'bool request::size_ok\(file ?&f, ?long long size\) ?\{ ?if ?\(' + E + r'\) ?\{ ?BOOSTER_NOTICE.*?return false; ?\} ?return true; ?\}', rq)
+    if m:
+        out.append('static int c12_size_ok(int has_mime, long long fsize, long long size) { if(%s) return 0; return 1; }'
+                   % m.group(1).replace('f.has_mime()', 'has_mime').replace('f.size()', 'fsize'))
+    else:
+        LIM_TU_PROBLEMS.append('src/http_request.cpp: request::size_ok not found in the expected shape')
+    for name, fn in (('multipart_form_data_limit', 'c12_def_mp'), ('content_length_limit', 'c12_def_cl'), ('file_in_memory_limit', 'c12_def_mem')):
+        m = re.search(name + r' ?= ?v\.get\("security\.' + name + r'", ?([\d*+ ()]+)\);', cs)
+        k = re.search(name + r'_\(s\.security\.' + name + r' ?([*\dL ]*)\)', cf)
+        if m and k:
+            out.append('static long long %s() { long long %s = %s; return %s %s; }' % (fn, name, m.group(1), name, k.group(1)))
+        else:
+            LIM_TU_PROBLEMS.append('default of security.%s not found in private/cached_settings.h / src/http_content_filter.cpp' % name)
+    vlib.write_if_changed(LIM_TU, '\n'.join(out) + '\n')
+    return LIM_TU
+
 
 GEN = {
     'Gen_c12': dict(src='src/http_content_type.cpp',
                     functions=[('separator', 'g_c12_separator'), ('ascii_to_lower', 'g_c12_to_lower'), ('xdigit', 'g_c12_xdigit')]),
+    'Gen_c12lim': dict(src=limits_tu(), incs=[], consts=[('c12_buffer_size', 'g_c12_buffer_size')],
+                       functions=[('c12_spill', 'g_c12_spill'), ('c12_grow', 'g_c12_grow'), ('c12_start', 'g_c12_start'), ('c12_size_ok', 'g_c12_size_ok'),
+                                  ('c12_def_mp', 'g_c12_def_mp'), ('c12_def_cl', 'g_c12_def_cl'), ('c12_def_mem', 'g_c12_def_mem')]),
 }
 
 SEPARATORS = set(b'()<>@,;:\\"/[]?={} \t')
@@ -126,6 +209,26 @@ def enc_ct(rng, key, style):
     if style.get('ctparam', 0) > rng.random():
         ct += b'; boundary=zzz-second-is-ignored'
     return ct
+
+
+def enc_ct_wf(rng, key):
+    """OWS type/subtype *( OWS ; OWS name OWS = OWS (token | quoted-string) ) with the boundary parameter somewhere"""
+    def o():
+        return rng.choice([b'', b'', b' ', b'\t', b'  ', b' \t'])
+
+    def val(v):
+        if tokenable(v) and rng.random() < 0.5:
+            return v
+        return b'"' + v.replace(b'\\', b'\\\\').replace(b'"', b'\\"') + b'"'
+
+    def param(name, v):
+        return o() + b';' + o() + name + o() + b'=' + o() + val(v)
+    others = [(b'charset', b'utf-8'), (b'x', b'a b;c=d'), (b'Boundaryx', b'no'), (b'oundary', b'no'), (b'q', b'"\\'), (b'~!#', b'$%&')]
+    before = [param(*rng.choice(others)) for _ in range(rng.choice([0, 0, 1, 2]))]
+    after = [param(*rng.choice(others + [(b'boundary', b'second-is-ignored')])) for _ in range(rng.choice([0, 0, 1, 2]))]
+    bname = rng.choice([b'boundary', b'BOUNDARY', b'Boundary', b'bOuNdArY'])
+    mt = rcase(rng, b'multipart/form-data', dict(case=0.5))
+    return o() + mt + b''.join(before) + param(bname, key) + b''.join(after)
 
 
 PLAIN = dict()
@@ -323,6 +426,13 @@ def gen_cases(ctx):
                                                  hexs(body), exp))
         cases.append('mp %d %s b%d %s %s' % (rng.choice(MEMS), hexs(ct), rng.choice([2, 3, 5, 7, 16, 64]), hexs(body), exp))
 
+    # 1b. every shape of a well-formed Content-Type (case split of coq/C12/CType.v): optional white space at the five places,
+    #     token / quoted-string values, parameters before and after the boundary parameter, boundary name in any case
+    for i in range(ctx.scale(150, 1500)):
+        key, parts, body = small_body(PLAIN, 200)
+        ct = enc_ct_wf(rng, key)
+        cases.append('mp %d %s %s %s %s' % (rng.choice(MEMS), hexs(ct), rng.choice(['-', 'b1', 'b7']), hexs(body), expect_token(parts)))
+
     # 2. well-formed medium / large bodies, 0..10 parts, random multi-cuts and buffer sizes 1..64 KiB
     sizes = ctx.scale([200, 1000, 5000, 20000], [200, 200, 1000, 1000, 5000, 5000, 20000, 20000, 70000, 262144])
     for i in range(ctx.scale(260, 700)):
@@ -395,7 +505,7 @@ def gen_cases(ctx):
         for key2 in (key, b'abc', b'a\\bc', b'abc ', key.strip()):
             body = encode_body(rng, key2, [(b'n', None, b'', b'data\r\n--' + key2[:-1])], PLAIN)
             cases.append('all2 3 %s %s -' % (hexs(ct), hexs(body)))
-    # the two documented matcher weaknesses (outside well-formed input): CR inside the key, CR CR LF CR LF after a header
+    # CR inside the key (outside well-formed input, matcher_needs_cr_free_key_refuted) and CR CR LF CR LF after a header (repaired, 3fc4520)
     key = b'\r\n--b'
     body = b'--' + key + b'\r\nContent-Disposition: form-data; name=a\r\n\r\n' + b'\r\n--' + b'\r\n--' + key + b'--\r\n'
     cases.append('all2 3 %s %s -' % (hexs(b'multipart/form-data; boundary="\r\n--b"'), hexs(body)))
@@ -416,6 +526,34 @@ def gen_cases(ctx):
     for h in bad_hdrs:
         body = b'--k\r\n' + h + b'\r\n\r\ncontent\r\n--k--\r\n'
         cases.append('all2 3 %s %s -' % (hexs(b'multipart/form-data; boundary=k'), hexs(body)))
+    # 6. bare CRs in part headers (malformed: RFC 5322 2.2 allows CR only in CR LF).  Repaired by /repo 3fc4520: the header
+    #    terminator is found at its first occurrence whatever precedes it.  The body must be refused or - where the parser is
+    #    lenient about a field value it does not interpret - delivered with the framing intact, i.e. exactly the original entries;
+    #    never with the content of one part under the name of another ("B/" expectation, key bare-cr-in-part-header-misframed).
+    for i in range(ctx.scale(40, 400)):
+        key = gen_key(rng)
+        parts = gen_parts(rng, key, rng.choice([2, 2, 3, 4]), rng.choice([0, 3, 10, 30]))
+        j = rng.randrange(0, len(parts))
+        shape = rng.randrange(5)
+        out = bytearray()
+        for n, pt in enumerate(parts):
+            hdr = enc_part_headers(rng, pt, PLAIN)
+            if n == j:
+                if shape == 0:      # ... X-Note: q CR CRLF CRLF   (the replay of the repaired defect)
+                    hdr = hdr[:-2] + b'X-Note: q\r' + b'\r\n\r\n'
+                elif shape == 1:    # several CRs before the terminator
+                    hdr = hdr[:-2] + b'X-Note: q' + b'\r' * rng.randrange(2, 5) + b'\r\n\r\n'
+                elif shape == 2:    # CR LF CR CR LF CR LF: a partial terminator, then a CR, then the terminator
+                    hdr = hdr[:-2] + b'\r' + b'\r\n\r\n'
+                elif shape == 3:    # the bare CR in the first line of the block
+                    hdr = b'X-Note: q\r\r\n' + hdr
+                else:               # the bare CR directly after the Content-Disposition value (syntax error there: 400)
+                    hdr = hdr[:-4] + b'\r\r\n\r\n'
+            out += (b'' if n == 0 else b'\r\n') + b'--' + key + b'\r\n' + hdr + pt[3]
+        out += b'\r\n--' + key + b'--\r\n'
+        cases.append('mp %d %s %s %s B/%s' % (rng.choice(MEMS), hexs(enc_ct(rng, key, PLAIN)), rng.choice(['-', 'b1', 'b5']), hexs(bytes(out)), expect_token(parts)))
+        if i % 4 == 0 and len(out) <= 300:
+            cases.append('all2 %d %s %s B/%s' % (rng.choice(MEMS), hexs(enc_ct(rng, key, PLAIN)), hexs(bytes(out)), expect_token(parts)))
     return cases
 
 
@@ -566,6 +704,106 @@ def gen_rq_cases(ctx):
             sp = sorted(hexs(k) + '=' + hexs(v) for k, v in pairs)
             exp = '200u/%d%s' % (len(sp), ''.join('/' + x for x in sp))
         line(mode, cl, rng.choice([0, 10 ** 6]), 0, rng.choice(BUFS), n, ctk, random_cuts(rng, n, rng.randrange(0, 4)) if n > 1 else '-', body, exp)
+
+    # F. GET query strings (request::prepare -> parse_form_urlencoded, all or nothing): any per-byte encoding choice
+    def enc_any(b):
+        out = bytearray()
+        for c in b:
+            r = rng.random()
+            if c == 0x20 and r < 0.5:
+                out += b'+'
+            elif c not in b'%+&=' and c != 0 and r < 0.6:
+                out.append(c)
+            else:
+                out += (b'%%%02X' if rng.random() < 0.5 else b'%%%02x') % c
+        return bytes(out)
+    for i in range(ctx.scale(200, 2500)):
+        pairs = []
+        for _ in range(rng.choice([0, 1, 1, 2, 3, 6])):
+            k = bytes(rng.choice(b'abXY01 &=%+;/?\xe9\x01\xff') for _ in range(rng.randrange(1, 5)))
+            v = bytes(rng.choice(b'abXY01 &=%+;/?\xe9\x01\xff\r\n') for _ in range(rng.randrange(0, 7)))
+            pairs.append((k, v))
+        q = b'&'.join(enc_any(k) + b'=' + enc_any(v) for k, v in pairs)
+        if pairs and rng.random() < 0.2:
+            q += b'&'
+        sp = sorted(hexs(k) + '=' + hexs(v) for k, v in pairs)
+        exp = '%d%s' % (len(sp), ''.join('/' + x for x in sp))
+        if rng.random() < 0.3:
+            q = mutate(rng, q).replace(b'\0', b'0')
+            exp = '-'
+        cases.append('gq %s %s' % (hexs(q), exp))
+    for q in [b'', b'&', b'a', b'=', b'a=', b'=a', b'a=1&', b'a=1&&b=2', b'a=1&b', b'a==1', b'a=%', b'a=%4', b'a=%zz', b'a=%41%', b'%=1', b'a=1&=2', b'a=1;b=2', b'&a=1']:
+        cases.append('gq %s -' % hexs(q))
+
+    # E. life of the temporary files (rf): uploaded files and fields with sizes at limit-1 / limit / limit+1, the application
+    #    closes / saves / makes permanent / keeps references in any order; also refused and abandoned requests
+    for i in range(ctx.scale(260, 2500)):
+        key = gen_key(rng)
+        mem = rng.choice([0, 1, 2, 5, 63, 64, 65, 1023, 1024, 1025, 1100, 2048, 3000])
+        parts = []
+        for _ in range(rng.choice([1, 1, 2, 2, 3, 4, 5])):
+            ln = max(0, mem + rng.choice([-1, 0, 1, 1, -mem, 7, 1024, 1025, 2047]))
+            data = gen_content(rng, key, ln)
+            data = (data + b'z' * ln)[:ln]
+            while b'\r\n--' + key in data:
+                j = data.index(b'\r\n--' + key)
+                data = data[:j] + b'x' + data[j + 1:]
+            is_file = rng.random() < 0.75
+            parts.append((gen_hvalue(rng), gen_hvalue(rng) if is_file else None, rng.choice(MIMES) if is_file else b'', data))
+        body = encode_body(rng, key, parts, PLAIN)
+        ct = enc_ct(rng, key, PLAIN).replace(b'\0', b'x')
+        n = len(body)
+        nfiles = sum(1 for p in parts if p[2])
+        acts = '.'.join(rng.choice('cspk') + str(rng.randrange(0, nfiles + 1)) for _ in range(rng.choice([0, 1, 1, 2, 3, 5]))) or '-'
+        mode = rng.choice('nnm')
+        r = rng.random()
+        if r < 0.75:
+            declared, sent, exp = n, body, rq_expect(mode, 10 ** 7, 10 ** 7, parts, body)
+        elif r < 0.85:      # cut off inside the body and abandoned by the client
+            declared, sent, exp = n, body[:rng.randrange(0, n)], '!'
+        elif r < 0.95:      # malformed inside: refused with 400 while files are held
+            k = rng.randrange(max(1, n - 6), n)
+            declared, sent, exp = n, body[:k] + b'X' + body[k + 1:], '-'
+        else:               # a form field over content_length_limit after the files: 413 while files are held
+            parts2 = parts + [(b'big', None, b'', b'y' * 50)]
+            sent = encode_body(rng, key, parts2, PLAIN)
+            declared, exp = len(sent), '-'
+        cl = 10 ** 7 if r < 0.95 else 49
+        cases.append('rf %s %d %d %d %d %d %s %s %s %s %s' % (mode, cl, 10 ** 7, mem, rng.choice([64, 1000, 4096, 65536]), declared, hexs(ct),
+                                                              cuts_for(sent, key) if len(sent) < 3000 else 'b4096', hexs(sent), acts, exp))
+
+    # G. a multipart filter that throws abort_upload(403) from its k-th on_new_file: 403, nothing delivered, no temporary file left,
+    #    whatever the chunking; k beyond the number of parts: behaves like a plain multipart filter
+    for i in range(ctx.scale(120, 1500)):
+        key = gen_key(rng)
+        parts = gen_parts(rng, key, rng.choice([1, 2, 3, 5]), rng.choice([0, 3, 30, 200]))
+        body = encode_body(rng, key, parts, PLAIN if i % 2 else FANCY)
+        ct = enc_ct(rng, key, PLAIN).replace(b'\0', b'x')
+        k = rng.randrange(1, len(parts) + 2)
+        n = len(body)
+        r = rng.random()
+        if r < 0.8:
+            declared, sent = n, body
+            exp = '403' if k <= len(parts) else rq_expect('m', 10 ** 7, 10 ** 7, parts, body)
+        elif r < 0.9:
+            declared, sent, exp = n, body[:rng.randrange(0, n)], '-'
+        else:
+            declared, sent, exp = n, mutate(rng, body)[:n].ljust(n, b'x'), '-'
+        line('a%d' % k, 10 ** 7, 10 ** 7, rng.choice([0, 5, 10 ** 6]), rng.choice(BUFS), declared, ct, cuts_for(sent, key), sent, exp)
+
+    # E2. EXHAUSTIVE: every sequence of application actions up to length 2 (thorough: 3) over the two files of one request -
+    #     one file of exactly file_in_memory_limit bytes (stays in memory), one of limit+1 bytes (temporary file), and a field over the limit
+    import itertools
+    key = b'XbndX'
+    for mem in ctx.scale([5], [0, 5, 1024]):
+        parts = [(b'm', b'm.bin', b'a/b', b'M' * mem), (b'fld', None, b'', b'v' * (mem + 2)), (b'd', b'd.bin', b'a/b', b'D' * (mem + 1))]
+        body = encode_body(rng, key, parts, PLAIN)
+        ct = b'multipart/form-data; boundary=' + key
+        alphabet = [a + str(k) for a in 'cspk' for k in (0, 1)]
+        for ln in range(0, ctx.scale(3, 4 if mem == 5 else 3)):
+            for seq in itertools.product(alphabet, repeat=ln):
+                cases.append('rf n %d %d %d 4096 %d %s - %s %s %s' % (10 ** 7, 10 ** 7, mem, len(body), hexs(ct), hexs(body), '.'.join(seq) or '-',
+                                                                     rq_expect('n', 10 ** 7, 10 ** 7, parts, body)))
     return cases
 
 # ------------------------------------------------------------------------------------------------
@@ -593,6 +831,8 @@ def parse_out(o):
             r['tmp'] = x[4:]
         elif x.startswith('leaks='):
             r['leaks'] = int(x[6:])
+        elif x.startswith('fd='):
+            r['fd'] = x[3:]
     if ' T ' in o:
         r['trace'] = o.split(' T ')[1].split()[0]
     if ' D ' in o:
@@ -625,6 +865,12 @@ def parse_rq(o):
     r['err'] = int(t[i][4:]); i += 1
     r['raw'] = t[i][4:]; i += 1
     a, b = t[i][4:].split(','); r['tmp_main'], r['tmp_after'] = int(a), int(b); i += 1
+    a, b = t[i][3:].split(','); r['fd_main'], r['fd_after'] = int(a), int(b); i += 1
+    if i < len(t) and t[i] == 'R':
+        s2, s3 = t[i + 1].split(';')
+        r['s2'] = tuple(int(x) for x in s2.split(','))      # (descriptors, directory entries) when the application returns
+        r['s3'] = tuple(int(x) for x in s3.split(','))      # ... when the request has been destroyed
+        i += 2
     r['flags'] = t[i:]
     return r
 
@@ -633,6 +879,10 @@ def oracle_rq(case, out):
     c = case.split()
     mode, cl, mp, mem, buf, declared = c[1], int(c[2]), int(c[3]), int(c[4]), int(c[5]), int(c[6])
     body = unhex(c[9])
+    rf = c[0] == 'rf'
+    acts = [] if not rf or c[10] == '-' else [(a[0], int(a[1:])) for a in c[10].split('.') if len(a) >= 2]
+    if rf:
+        c = c[:10] + c[11:]
     expect = c[10] if len(c) > 10 else '-'
     if out.startswith('<crash'):
         return ('crash-rq', 'service harness died on this request: ' + out)
@@ -643,19 +893,59 @@ def oracle_rq(case, out):
     st = r['status']
     if r['flags']:
         return ('request-protocol-' + r['flags'][0].lower(), 'the request/filter protocol was broken: ' + ' '.join(r['flags']))
-    if st not in ('200', '400', '413', 'none'):
+    if st not in ('200', '400', '413', 'none') and not (st == '403' and mode[0] == 'a'):
         return ('unexpected-status-' + st, 'status %s for an upload request' % st)
-    if r['tmp_after'] != 0:
-        return ('temp-file-left-behind', '%d temporary upload files still exist after the request was destroyed' % r['tmp_after'])
-    filt = declared > 0 and mode in 'mr'
+    if r['fd_after'] != 0:
+        return ('descriptor-left-open', '%d descriptors on upload files still open after the request and all references to its files were gone' % r['fd_after'])
+    # the life of the temporary files, stated independently: a file exists from the moment its size exceeds the limit until it is
+    # closed / saved by the application or its last owner goes away; only make_permanent keeps it
+    sizes = [(0 if f[3] == '-' else len(f[3]) // 2) for f in r['files']] if st == '200' else []
+    fs = [dict(disk=s > mem, open=s > mem, spilled=s > mem, temp=True, kept=False) for s in sizes]
+    for a, k in acts:
+        if st != '200' or k >= len(fs):
+            continue
+        f = fs[k]
+        if a == 'c':
+            f['open'] = False
+            if f['temp']:
+                f['disk'] = False
+        elif a == 's':
+            if f['spilled']:
+                f['open'] = False; f['disk'] = False
+        elif a == 'p':
+            f['temp'] = False
+        elif a == 'k':
+            f['kept'] = True
+    want2 = (sum(f['open'] for f in fs), sum(f['disk'] for f in fs))
+    for f in fs:
+        if not f['kept']:
+            f['open'] = False
+            if f['temp']:
+                f['disk'] = False
+    want3 = (sum(f['open'] for f in fs), sum(f['disk'] for f in fs))
+    want4 = sum(1 for f in fs if f['disk'] and not f['temp'])
+    if r['tmp_after'] != want4:
+        return ('temp-file-left-behind', '%d temporary upload files still exist after the request was destroyed (%d made permanent by the application)' % (r['tmp_after'], want4))
+    if rf and st == '200' and (r['s2'] != want2 or r['s3'] != want3):
+        return ('temp-file-life', '(descriptors, files) after the application %s want %s; after the request %s want %s (actions %s, sizes %s, limit %d)'
+                % (r['s2'], want2, r['s3'], want3, acts, sizes, mem))
+    if rf and st != '200' and (r['s2'] != (0, 0) or r['s3'] != (0, 0)):
+        return ('temp-file-left-behind', 'refused request: descriptors/files left %s %s' % (r['s2'], r['s3']))
+    filt = declared > 0 and mode[0] in 'mra'
     if st == '200':
         want_tmp = sum(1 for f in r['files'] if (0 if f[3] == '-' else len(f[3]) // 2) > mem)
         if r['tmp_main'] != want_tmp:
             return ('spill-rule', '%d temporary files while %d uploaded files exceed file_in_memory_limit %d' % (r['tmp_main'], want_tmp, mem))
+        if r['fd_main'] != want_tmp:
+            return ('spill-rule', '%d descriptors open on temporary files while %d uploaded files exceed file_in_memory_limit %d' % (r['fd_main'], want_tmp, mem))
         if (r['end'], r['err']) != ((1, 0) if filt else (0, 0)):
             return ('filter-end-protocol', 'accepted request: on_end_of_content=%d on_error=%d' % (r['end'], r['err']))
         if len(body) < declared:
             return ('delivered-before-declared-length', 'application ran after %d of %d declared bytes' % (len(body), declared))
+    elif st == '403':
+        # the filter itself aborted the upload: neither on_end_of_content nor on_error is due, and it was its k-th on_new_file
+        if (r['end'], r['err']) != (0, 0) or r['new'] != int(mode[1:]):
+            return ('filter-end-protocol', 'aborted upload: on_end_of_content=%d on_error=%d on_new_file=%d' % (r['end'], r['err'], r['new']))
     else:
         if (r['end'], r['err']) != ((0, 1) if filt else (0, 0)):
             return ('filter-end-protocol', 'refused request: on_end_of_content=%d on_error=%d' % (r['end'], r['err']))
@@ -668,10 +958,10 @@ def oracle_rq(case, out):
     elif r['raw'] != '-':
         return ('raw-filter-bytes', 'raw data reported without a raw filter')
     is_mp = unhex(c[7]).lstrip(b' \t').lower().startswith(b'multipart/form-data')
-    if mode == 'm' and not is_mp:
+    if mode[0] in 'ma' and not is_mp:
         if r['new'] or r['ready']:
             return ('filter-called-without-multipart', 'multipart filter events for a body that is not multipart/form-data')
-    elif mode == 'm':
+    elif mode[0] in 'ma':
         if st == '200':
             seen = r['ready']
             if r['new'] != len(seen):
@@ -693,7 +983,7 @@ def oracle_rq(case, out):
             return ('wrong-refusal-code', '413 for a malformed body within all limits')
         return None
     e = expect.split('/')
-    if e[0] in ('400', '413'):
+    if e[0] in ('400', '413', '403'):
         if st != e[0]:
             return ('limit-not-enforced' if st == '200' else 'wrong-refusal-code', 'status %s, expected %s (cl=%d mp=%d declared=%d)' % (st, e[0], cl, mp, declared))
         return None
@@ -722,8 +1012,21 @@ def oracle_rq(case, out):
 def oracle(case, out):
     c = case.split()
     op = c[0]
-    if op == 'rq':
+    if op in ('rq', 'rf'):
         return oracle_rq(case, out)
+    if op == 'gq':
+        if out.startswith('<crash'):
+            return ('crash-gq', 'service harness died on this query string: ' + out)
+        t = out.split()
+        if len(t) < 4 or t[0] != 'gq' or t[2] != 'G':
+            return ('bad-output', 'unexpected harness answer ' + out[:200])
+        if t[1] != '200':
+            return ('unexpected-status-' + t[1], 'status %s for a GET request' % t[1])
+        if c[-1] != '-' and len(c) > 2:
+            e = c[-1].split('/')
+            if t[4:] != e[1:] or int(t[3]) != int(e[0]):
+                return ('wrong-query-fields', 'get() differs from the pairs encoded in the query string: %s vs %s' % (t[3:9], e[:6]))
+        return None
     if out.startswith('<crash'):
         return ('crash-' + op, 'harness died on this input: ' + out)
     if not out.startswith(op + ' '):
@@ -753,7 +1056,14 @@ def oracle(case, out):
             return ('temp-file-left-behind', 'temporary upload files still exist after the parser and its files were destroyed')
         if int(alive) != want_tmp:
             return ('spill-rule', '%s temporary files while %d entries exceed the in-memory limit %d' % (alive, want_tmp, lim))
+        fa, fb = r['fd'].split(',')
+        if int(fb) != 0:
+            return ('descriptor-left-open', 'descriptors on upload files still open after the parser and its files were destroyed')
+        if int(fa) != want_tmp:
+            return ('spill-rule', '%s descriptors on temporary files while %d entries exceed the in-memory limit %d' % (fa, want_tmp, lim))
     else:
+        if int(r['fd']) != want_tmp:
+            return ('spill-rule', '%s descriptors on temporary files while %d entries exceed the in-memory limit %d' % (r['fd'], want_tmp, lim))
         if r.get('leaks', 0) != 0:
             return ('temp-file-left-behind', 'temporary upload files still exist after the parser and its files were destroyed')
         if int(r['tmp']) != want_tmp:
@@ -786,6 +1096,14 @@ def oracle(case, out):
             return ('malformed-delivered', 'a truncated body / a body with trailing bytes was accepted (status eof, %d entries)' % len(r['files']))
         return None
     e = expect.split('/')
+    if e[0] == 'B':
+        e = e[1:]
+        n = int(e[0])
+        want = [tuple(e[1 + 4 * i:5 + 4 * i]) for i in range(n)]
+        if cls == 'ok' and [tuple(f) for f in r['files']] != want:
+            return ('bare-cr-in-part-header-misframed', 'a body with a bare CR in a part header was accepted with the framing broken: '
+                    '%d entries delivered, %d encoded; contents %s instead of %s' % (len(r['files']), n, [f[3][:20] for f in r['files']], [w[3][:20] for w in want]))
+        return None
     n = int(e[0])
     want = [tuple(e[1 + 4 * i:5 + 4 * i]) for i in range(n)]
     if cls != 'ok':
@@ -801,14 +1119,20 @@ def oracle(case, out):
 
 def nontrivial(case, out):
     c = case.split()
-    if c[0] == 'rq':
+    if c[0] in ('rq', 'rf'):
         return c[9] != '-'
+    if c[0] == 'gq':
+        return c[1] != '-'
     body = c[4] if c[0] == 'mp' else c[3]
     return body != '-' and ' refused' not in out
 
 
 def classify(case, out):
     c = case.split()
+    if c[0] == 'gq':
+        return 'gq:%s:%s' % ('wellformed' if c[-1] != '-' and len(c) > 2 else 'malformed', 'empty' if out.split()[3:4] == ['0'] else 'pairs')
+    if c[0] == 'rf':
+        return 'rf:acts-%d:mode-%s:%s' % (0 if c[10] == '-' else len(c[10].split('.')), c[1], out.split()[1] if len(out.split()) > 1 else '?')
     if c[0] == 'rq':
         e = c[10] if len(c) > 10 else '-'
         kind = 'malformed' if e == '-' else 'must-refuse' if e == '!' else 'urlencoded' if e.startswith('200u') else 'wellformed'
@@ -816,7 +1140,7 @@ def classify(case, out):
     body = c[4] if c[0] == 'mp' else c[3]
     n = 0 if body == '-' else len(body) // 2
     b = '<=300' if n <= 300 else '<=6000' if n <= 6000 else '<=70000' if n <= 70000 else '>70000'
-    kind = 'wellformed' if c[-1] not in ('-', '!') else 'must-refuse' if c[-1] == '!' else 'malformed'
+    kind = 'bare-cr-header' if c[-1].startswith('B/') else 'wellformed' if c[-1] not in ('-', '!') else 'must-refuse' if c[-1] == '!' else 'malformed'
     st = out.split()[2] if c[0] == 'all2' and len(out.split()) > 2 else out.split()[1] if len(out.split()) > 1 else '?'
     cuts = 'all2' if c[0] == 'all2' else ('1chunk' if c[3] == '-' else 'b1' if c[3] == 'b1' else 'blocks' if c[3][0] == 'b' else 'cuts')
     return '%s:%s:%s:%s' % (kind, b, cuts, st)
@@ -829,7 +1153,12 @@ RULE = ('generated: (1) well-formed multipart bodies from an independent Python 
         '(2) truncations and trailing bytes (must be refused); (3) mutated bodies, odd Content-Type and part headers (correspondence only); '
         '(4) the same families as whole requests through a running cppcms::service over SCGI (modes: no filter / multipart_filter / '
         'raw_content_filter; content_length_limit, multipart_form_data_limit, file_in_memory_limit swept around the sizes in the body; declared '
-        'length = / < / > bytes sent; read buffer 1..64 KiB; urlencoded and other content types). A case is non-trivial when it has a '
+        'length = / < / > bytes sent; read buffer 1..64 KiB; urlencoded and other content types); (5) every shape of a well-formed Content-Type '
+        '(OWS at five places, token / quoted values, parameters around the boundary parameter); (6) rf: files and fields of limit-1 / limit / '
+        'limit+1 bytes, the application closes / saves / makes permanent / keeps references in random order, refused and abandoned requests, '
+        'plus EVERY action sequence up to length 2 (thorough 3) over two files; descriptors and directory entries counted at four points; '
+        '(7) a multipart filter that throws abort_upload at its k-th on_new_file; (8) gq: GET query strings under any per-byte encoding, '
+        'mutated ones, fixed malformed ones; (9) bodies with bare CRs in part headers, five shapes (must be refused or framed exactly; regression of /repo 3fc4520). A case is non-trivial when it has a '
         'non-empty body and the Content-Type was accepted; distinct = distinct case lines (md5).')
 
 
@@ -837,18 +1166,24 @@ def run(ctx):
     errs = vlib.gen_coq(GEN)
     for n, e in errs:
         ctx.broke('translator cxx2v failed on %s (tie to source broken)' % n, e)
+    for pr in LIM_TU_PROBLEMS:
+        ctx.broke('tie of the limit decisions to the source broken', pr)
     res = vlib.coq_props('C12')
     ctx.proof(res)
     ctx.coverage['trusted_base'] = [
         'Coq 8.16.1 kernel, vm_compute (256-point sweeps, witnesses, non-vacuity examples)',
-        'tools/cxx2v.py + clang 14 JSON AST (separator, ascii_to_lower, xdigit regenerated from private/http_protocol.h)',
+        'tools/cxx2v.py + clang 14 JSON AST (separator, ascii_to_lower, xdigit regenerated from private/http_protocol.h; limit decisions '
+        'lifted by regular expressions in checks/C12.py limits_tu from http_file_buffer.h, http_request.cpp, cached_settings.h, http_content_filter.cpp)',
         'extraction: ExtrOcamlBasic, OCaml 4.13.1; ocaml/C12_driver.ml (glue: cut lists, text formats, filter end/error counts, spill count)',
         'harness/C12_multipart.cpp (driver loop of tests/multipart_parser_test.cpp / on_content_progress around the real multipart_parser)',
         'harness/C12_service.cpp (in-process cppcms::service, SCGI client, filter applications; accept() interposed to see the server fd)',
         'checks/C12.py (independent Python encoders for multipart and urlencoded bodies, generators, oracle)',
         'hand model of multipart_parser::consume/process_header/parse_pair, content_type::parse, skip_ws/tocken/unquote, '
         'request::on_content_start/on_content_progress/size_ok/parse_form_urlencoded, util::urldecode (coq/C12/Defs.v), tied by correspondence']
-    ctx.assumptions = ['writes to the upload buffer succeed (no_room_left is an I/O failure, not modelled)',
+    ctx.assumptions = ['writes to the upload buffer succeed (no_room_left is an I/O failure, not modelled); fopen/fclose/rename/remove on the upload '
+                       'directory succeed; save_to target on the same file system (rename succeeds)',
+                       'boundary key: RFC 2046 bchars (proved CR-free); a key containing CR is outside the quantifier (matcher_needs_cr_free_key_refuted '
+                       'delimits the domain)',
                        'boundary key contains no CR (RFC 2046 bchars) for matcher_correct / decode_encode / part_content_reconstructed',
                        'decode_encode: part names and file names contain no CR, MIME type empty or already in normal form (wf_part)',
                        'char is signed 8-bit on this target (x86-64)',
@@ -870,8 +1205,8 @@ def run(ctx):
         cases = ctx.replay_cases
     else:
         cases = vlib.corpus_cases('C12') + gen_cases(ctx) + gen_rq_cases(ctx)
-    pcases = [c for c in cases if not c.startswith('rq ')]
-    rcases = [c for c in cases if c.startswith('rq ')]
+    pcases = [c for c in cases if not c.startswith(('rq ', 'rf ', 'gq '))]
+    rcases = [c for c in cases if c.startswith(('rq ', 'rf ', 'gq '))]
     tmp = os.path.join(ctx.workdir, 'uploads-%d' % os.getpid())
     shutil.rmtree(tmp, ignore_errors=True)
     os.makedirs(tmp)
